@@ -7,7 +7,8 @@
 (*   "after":[routes],"keys":[ids],"mtu":[ids],"conn":B,"info":[ids],        *)
 (*   "offline":[ids],"stored":[ids],"panic":B}                               *)
 (* and the same record with "ev":"lost","off":[ids],"how":H for pings that  *)
-(* arrive after good-byes and a loss of session objects.                     *)
+(* arrive after good-byes and a loss of session objects; "atonce" /          *)
+(* "atonce-replay" for bursts worked on by several workers at once (below). *)
 (***************************************************************************)
 EXTENDS ControlPlane
 
@@ -36,9 +37,25 @@ CaseOK == Judge(Allowed(Ev.type, Ev.variant, Ev.src, ToSet(Ev.before)))
 (* good-bye and the victim had lost session objects (cleaner / restart); same judgement, AllowedLost.            *)
 LostOK == Judge(AllowedLost(Ev.type, Ev.variant, Ev.src, ToSet(Ev.before)))
 
+(* {"ev":"atonce","pings":[{"type":T,"src":X,"first":B,"copies":K,"effective":N}..],"hops":[ids],"how":H,       *)
+(*  ... the same before/after fields, taken before and after the whole burst ...}: a burst of genuine pings      *)
+(* (every distinct one in K verbatim copies) was worked on by as many router workers at the same moment; the     *)
+(* sources marked first had no stored record and no session object before.  `effective` is the number of copies   *)
+(* of that ping that are witnessed to have changed state the property names (a hello request: the number of       *)
+(* different key-exchange shares the victim answered this one request with - every one is a new set of session   *)
+(* keys).  Of the copies of one ping at most one is not a replay, and all that changed over the burst is what     *)
+(* the distinct authentic pings allow once each (AllowedAtOnce; `hops`: routers named by genuine hop records).    *)
+AtOnceOK == /\ \A i \in DOMAIN Ev.pings : Ev.pings[i].effective <= 1
+            /\ Judge(AllowedAtOnce(Ev.pings, ToSet(Ev.hops), ToSet(Ev.before)))
+(* {"ev":"atonce-replay", ... the fields of "case" ...}: a ping of such a burst delivered again afterwards, one   *)
+(* frame at a time: a replay (the victim received it before and nothing older than it is new), it changes nothing *)
+AtOnceReplayOK == Judge(Allowed(Ev.type, "replayed", Ev.src, ToSet(Ev.before)))
+
 TraceNext == /\ l <= Len(Trace) /\ l' = l + 1
              /\ \/ Ev.ev = "case" /\ CaseOK = TRUE
                 \/ Ev.ev = "lost" /\ LostOK = TRUE
+                \/ Ev.ev = "atonce" /\ AtOnceOK = TRUE
+                \/ Ev.ev = "atonce-replay" /\ AtOnceReplayOK = TRUE
              /\ UNCHANGED vars
 
 TraceAccepted ==
